@@ -267,6 +267,11 @@ def ro_histories(tier, seed):
     fixed.append([("minmax", "box"), ("cvx",), ("do_math",), ("create", "A"), ("forall", "A", "ball"), ("st", "A"), ("solve",), ("dvar",), ("do_math",)])
     fixed.append([("cvx",), ("minmax", "box"), ("solve",), ("solve",), ("create", "B"), ("st", "B"), ("dual",), ("do_math",)])
     fixed.append([("create", "A"), ("minmax", "ball"), ("st", "A"), ("cvx",), ("dual",), ("dvar",), ("dual",), ("solve",)])
+    # a set attached (or replaced) with forall() AFTER the constraint was handed to st() and the model was formulated / solved:
+    # the next formulation uses the new set (the library honours late forall(); C01 states "the set passed to its forall()")
+    fixed.append([("create", "A"), ("create", "B"), ("st", "A"), ("st", "B"), ("minmax", "box"), ("do_math",), ("forall", "A", "ball")])
+    fixed.append([("create", "A"), ("create", "B"), ("forall", "B", "box"), ("st", "A"), ("st", "B"), ("minmax", "ball"), ("solve",), ("forall", "A", "budget"), ("forall", "B", "ball")])
+    fixed.append([("create", "A"), ("create", "B"), ("st", "A"), ("st", "B"), ("minmax", "box"), ("dual",), ("forall", "B", "exp-only"), ("do_math",)])
     uniq = []
     seen = set()
     for h in fixed:
